@@ -9,6 +9,7 @@ import (
 	"context"
 	"encoding/json"
 	"fmt"
+	"io"
 	"os"
 	"path/filepath"
 	"runtime"
@@ -46,7 +47,12 @@ type Case struct {
 	Writer  string        `json:"writer,omitempty"`   // file rewritten (content A/B, new mtime) during the run
 	Procs   int           `json:"procs,omitempty"`    // GOMAXPROCS
 	BaseTpl bool          `json:"base_tpl,omitempty"` // all goroutines use the single base template (Load/New from it)
+	Failing bool          `json:"failing,omitempty"`  // a further goroutine keeps making renders that fail half-way
 }
+
+// A render that fails after it has produced part of a text run and of an attribute value;
+// whatever it leaves behind in process-wide pools must never surface in another render.
+const failingTpl = `<p title="LEAKATTR-{{ n }}-{{ n | nosuchfilter }}">LEAKTEXT-{{ n }} {{ n | nosuchfilter }}</p>`
 
 type result struct {
 	out      string
@@ -386,6 +392,31 @@ func check(c Case) error {
 			}()
 		}
 	}
+	if c.Failing {
+		for k := 0; k < 2; k++ {
+			k := k
+			wwg.Add(1)
+			go func() {
+				defer wwg.Done()
+				defer func() { _ = recover() }()
+				<-start
+				for i := 0; ; i++ {
+					select {
+					case <-stop:
+						return
+					default:
+					}
+					data := map[string]any{"n": fmt.Sprintf("secret-%d-%d", k, i)}
+					if k == 0 {
+						_ = vuego.New().Fill(data).RenderString(context.Background(), io.Discard, failingTpl)
+					} else {
+						_ = worlds[0].root.New().Fill(data).RenderString(context.Background(), io.Discard, failingTpl)
+					}
+					runtime.Gosched()
+				}
+			}()
+		}
+	}
 	close(start)
 	wg.Wait()
 	close(stop)
@@ -399,6 +430,10 @@ func check(c Case) error {
 	for _, o := range observed {
 		if o.got.panicked {
 			failures = append(failures, fmt.Sprintf("program %s, goroutine %d, entry %s: %s", o.j.w.p.Name, o.j.g, o.j.entry, o.got.out))
+			continue
+		}
+		if c.Failing && (strings.Contains(o.got.out, "LEAKTEXT") || strings.Contains(o.got.out, "LEAKATTR") || strings.Contains(o.got.out, "secret-")) {
+			failures = append(failures, fmt.Sprintf("program %s, goroutine %d, entry %s: output contains text of ANOTHER (failed) render: %v", o.j.w.p.Name, o.j.g, o.j.entry, o.got))
 			continue
 		}
 		allow := soloResults(o.j.w, c, o.j.entry, o.j.g)
@@ -440,6 +475,9 @@ func classify(c Case) (bool, []string) {
 	if c.Unique {
 		cls = append(cls, "unique-paths-and-expressions")
 	}
+	if c.Failing {
+		cls = append(cls, "failing-renders-alongside")
+	}
 	if c.Writer != "" {
 		cls = append(cls, "files-changing")
 	}
@@ -479,6 +517,7 @@ func TestProp(t *testing.T) {
 				{Prog: p.Name, N: 6, Reps: reps, Entries: []string{"frag", "reader", "file"}, Warm: true, Procs: 1},
 				{Prog: p.Name, N: 16, Reps: reps, Entries: []string{"string", "reader", "file", "load"}, BaseTpl: true, Unique: true, Procs: 16},
 				{Prog: p.Name, N: 8, Reps: reps, Entries: []string{"string", "file", "vue"}, BaseTpl: true, Warm: true, Writer: "page.vuego", Procs: 4},
+				{Prog: p.Name, N: 8, Reps: reps, Entries: allEntries, Failing: true, Unique: true, Procs: 4},
 			}
 			if run.Thorough() {
 				configs = append(configs,
@@ -510,6 +549,7 @@ func TestProp(t *testing.T) {
 			Unique:  rapid.Bool().Draw(t, "unique"),
 			Procs:   rapid.SampledFrom([]int{1, 4, 16}).Draw(t, "procs"),
 			BaseTpl: rapid.Bool().Draw(t, "base"),
+			Failing: rapid.IntRange(0, 2).Draw(t, "failing") == 0,
 		}
 		k := rapid.IntRange(1, 4).Draw(t, "ne")
 		for j := 0; j < k; j++ {
@@ -527,7 +567,7 @@ func TestProp(t *testing.T) {
 		g := compose.Gen(t)
 		return Case{Gen: &g, Prog: "generated", N: rapid.SampledFrom([]int{4, 8, 16}).Draw(t, "n"), Reps: 2,
 			Entries: []string{"load", "file", "string"}, Shared: rapid.Bool().Draw(t, "shared"), BaseTpl: rapid.Bool().Draw(t, "base"),
-			Warm: rapid.Bool().Draw(t, "warm"), Procs: rapid.SampledFrom([]int{4, 16}).Draw(t, "procs")}
+			Warm: rapid.Bool().Draw(t, "warm"), Procs: rapid.SampledFrom([]int{4, 16}).Draw(t, "procs"), Failing: rapid.IntRange(0, 3).Draw(t, "failing") == 0}
 	}, func(c Case) (bool, []string) { nt, cls := classify(c); return nt, append(cls, "generated-program") }, check)
 	rec.Note("max goroutines observed in flight at once in the last case: %d", atomic.LoadInt64(&raceSeen))
 }
